@@ -139,6 +139,12 @@ Proof.
   - destruct (IH H) as [H1 H2]. split; [right; exact H1 | exact H2].
 Qed.
 
+Lemma find_ext_in' {A} (p q0 : A -> bool) l : (forall x, In x l -> p x = q0 x) -> find p l = find q0 l.
+Proof.
+  induction l as [|x t IH]; intros H; [reflexivity|]. cbn [find]. rewrite (H x (or_introl eq_refl)).
+  destruct (q0 x); [reflexivity|]. apply IH. intros y Hy. apply H. right. exact Hy.
+Qed.
+
 Lemma count_sym_In' w x : (0 < count_sym w x)%Z -> In x w.
 Proof. unfold count_sym. intros H. apply (count_occ_In Z.eq_dec). lia. Qed.
 
@@ -166,6 +172,7 @@ Local Notation R := (f0_rounds fb).
 Local Notation prod := (f0_cprod fb).
 Local Notation ubi := (f0_ubi fb).
 Local Notation S0 := (code_sem fb).
+Local Notation K := (the_crossing fb ++ f0_ubs fb ++ f0_ubi fb).
 
 Lemma T_split : T = R * C + lo.
 Proof. unfold f0_rounds, f0_leftover. pose proof (Nat.div_mod_eq T C). lia. Qed.
@@ -200,9 +207,12 @@ Lemma f0_applies f fd t : In f (fl_act fb) -> nth_error (s_factors S0) f = Some 
 Proof.
   intros Hact E. destruct (f0_sem_factor fb HF f fd Hact E) as (_ & _ & Hsu & Hder).
   destruct (is_derived fb f) eqn:Ed.
-  - destruct (f0_sem_crossed_derived fb HF f fd Hact Ed E) as (Hfc & d & w & _ & _ & Hd & _).
-    rewrite (f0_sustain_main fb HF f Hfc) in Hsu.
-    apply (applies_within fd _ Hd eq_refl eq_refl Hsu t).
+  - destruct (in_dec Nat.eq_dec f c) as [Hfc0 | Hnc].
+    + destruct (f0_sem_crossed_derived fb HF f fd Hfc0 Ed E) as (Hfc & d & w & _ & _ & Hd & _).
+      rewrite (f0_sustain_main fb HF f Hfc) in Hsu.
+      apply (applies_within fd _ Hd eq_refl eq_refl Hsu t).
+    + destruct (f0_sem_ucd fb HF f fd Hact Hnc Ed E) as (d & w & _ & _ & _ & Hsu1 & Hd & _).
+      apply (applies_within fd _ Hd eq_refl eq_refl Hsu1 t).
   - unfold applies. rewrite (Hder eq_refl). reflexivity.
 Qed.
 
@@ -270,15 +280,16 @@ Proof.
 Qed.
 
 (** a derived factor of the crossing: its level is accepted for the levels of the factors it reads *)
-Lemma v_derived f t : In f (fl_act fb) -> is_derived fb f = true -> t < T ->
+Lemma v_derived f t : In f c -> is_derived fb f = true -> t < T ->
   exists w, window_of fb f = Some w /\ (forall d, In d (win_deps w) -> In d (fl_act fb) /\ is_derived fb d = false) /\
             predicate fb f (lvl f t) (map (fun a => [Some a]) (map (fun d => lvl d t) (win_deps w))) = true.
 Proof.
-  intros Hact Hd Ht. pose proof (act_lt fb HF f Hact) as Hf. destruct v_parts as (_ & Hfac & _ & _).
+  intros Hfc0 Hd Ht. pose proof (f0_cact_main fb HF f Hfc0) as Hact.
+  pose proof (act_lt fb HF f Hact) as Hf. destruct v_parts as (_ & Hfac & _ & _).
   assert (Hlt : f < length (s_factors S0)) by (rewrite (f0_sem_factors_length fb HF); exact Hf).
   destruct (nth_error (s_factors S0) f) as [fd|] eqn:E; [|apply nth_error_None in E; lia].
   specialize (Hfac f fd E). destruct (f0_sem_factor fb HF f fd Hact E) as (_ & Hnl & Hsu & _).
-  destruct (f0_sem_crossed_derived fb HF f fd Hact Hd E) as (Hfc & d & w & Hfa & Hw & Hder & Hdeps).
+  destruct (f0_sem_crossed_derived fb HF f fd Hfc0 Hd E) as (Hfc & d & w & Hfa & Hw & Hder & Hdeps).
   rewrite (f0_sustain_main fb HF f Hfc) in Hsu.
   exists w. split; [unfold window_of; rewrite Hfa; exact Hw|]. split; [exact Hdeps|].
   unfold factor_ok in Hfac. apply andb_prop in Hfac. destruct Hfac as [_ Hcells]. rewrite forallb_forall in Hcells.
@@ -309,7 +320,7 @@ Proof.
     apply in_combine_map in Hin. destruct Hin as [Hfc ->].
     assert (Hact : In f (fl_act fb)) by (apply (f0_cact_main fb HF); exact Hfc).
     destruct (is_derived fb f) eqn:Ed; [|discriminate]. cbn [andb] in E.
-    destruct (v_derived f t Hact Ed Ht) as (w & Hw & Hdeps & Hp). rewrite Hw in E.
+    destruct (v_derived f t Hfc Ed Ht) as (w & Hw & Hdeps & Hp). rewrite Hw in E.
     destruct (negb (is_complex fb f)); [|discriminate].
     apply negb_true_iff in E. apply not_true_iff_false in E. apply E. apply existsb_exists.
     exists (map (fun d => lvl d t) (win_deps w)). split; [|exact Hp].
@@ -355,10 +366,10 @@ Proof.
   intros df l w0 Hdf Hl Hw0. unfold f0_cd in Hdf. apply filter_In in Hdf. destruct Hdf as [Hdfc Hdd].
   assert (Hact : In df (fl_act fb)) by (apply (f0_cact_main fb HF); exact Hdfc).
   rewrite (merged_lookup t df (or_introl Hdfc)) in Hl. inversion Hl; subst l.
-  destruct (v_derived df t Hact Hdd Ht) as (w & Hw & Hdeps & Hp). rewrite Hw in Hw0. inversion Hw0; subst w0.
+  destruct (v_derived df t Hdfc Hdd Ht) as (w & Hw & Hdeps & Hp). rewrite Hw in Hw0. inversion Hw0; subst w0.
   rewrite <- Hp. f_equal. rewrite map_map. apply map_ext_in. intros x Hx. f_equal. apply merged_lookup.
   destruct (Hdeps x Hx) as [Hxa Hxd]. destruct (in_dec Nat.eq_dec x c) as [Hc | Hnc]; [left; exact Hc | right].
-  apply (ubs_In fb HF Hq). split; [exact Hxa|]. split; [exact Hnc|].
+  apply (ubs_In fb HF Hq). split; [exact Hxa|]. split; [exact Hnc|]. split; [|exact Hxd].
   apply (f0_sf_In fb HF df w x); [unfold f0_cd; apply filter_In; split; assumption | exact Hw | exact Hx].
 Qed.
 
@@ -519,7 +530,7 @@ End Round.
 Lemma round_comp_spec a tc : a + tc <= T -> tc <= C ->
   (forall j, j < q -> count_in (nth j prod []) (slice a tc) <= mult_of j) ->
   comp_ok fb tc (round_comp a tc) /\
-  forall g, In g (fl_act fb) -> round_row fb tc (round_comp a tc) g = map (fun t' => get_cell s g (a + t')) (seq 0 tc).
+  forall g, In g K -> round_row fb tc (round_comp a tc) g = map (fun t' => get_cell s g (a + t')) (seq 0 tc).
 Proof.
   intros Hb Hle Hcnt. destruct (slice_perm_spec a tc Hb Hcnt) as (Hbw & Hpn).
   destruct (p_R_spec cws (f0_cws_nonneg fb HF) tc (slice_perm a tc) ltac:(rewrite (f0_p_C fb HF); exact Hle) Hbw) as [Hrange Hcomp].
@@ -541,7 +552,7 @@ Proof.
   { unfold round_comp, comp_ok. split; [exact Hrange|]. split; [rewrite Hcomp; discriminate|].
     split; [apply (src_comp_ok a tc Hb Hle Hcnt)|].
     rewrite <- (map_id ubi) at 1. apply Forall2_map_same. intros g Hg. apply Hz. exact Hg. }
-  split; [exact Hok|]. intros g Hg. apply (K_In fb HF Hq) in Hg. apply in_app_iff in Hg.
+  split; [exact Hok|]. intros g Hg. apply in_app_iff in Hg.
   destruct Hg as [Hg | Hg]; [|apply in_app_iff in Hg; destruct Hg as [Hg | Hg]].
   - apply In_nth_error in Hg. destruct Hg as [i Hi].
     rewrite (round_row_crossed fb HF Hq tc _ i g Hle Hok Hi). unfold round_comp at 1. cbn [fst]. rewrite Hperm.
@@ -632,9 +643,9 @@ Proof.
     apply round_comp_spec; [lia | apply Nat.lt_le_incl, (f0_leftover_lt fb HF) | apply leftover_counts; exact E].
 Qed.
 
-Lemma the_key_rows g : In g (fl_act fb) -> decoded_row fb the_key g = nth g s [].
+Lemma the_key_rows_K g : In g K -> decoded_row fb the_key g = nth g s [].
 Proof.
-  intros Hg. pose proof T_split as HT. destruct (v_factor g Hg) as [Hlen _].
+  intros Hg. pose proof T_split as HT. destruct (v_factor g (proj1 (proj1 (K_In fb HF Hq g) Hg))) as [Hlen _].
   unfold decoded_row, the_key. cbn [k_rounds k_left].
   assert (Hrow : nth g s [] = map (fun t => get_cell s g t) (seq 0 T)).
   { unfold get_cell. rewrite <- Hlen. symmetry. apply map_nth_seq. }
@@ -649,6 +660,31 @@ Proof.
     + apply Nat.eqb_neq in E.
       destruct (round_comp_spec (R * C) lo ltac:(lia) (Nat.lt_le_incl _ _ (f0_leftover_lt fb HF)) (leftover_counts E)) as [_ H].
       rewrite (H g Hg). rewrite (seq_as_map (0 + R * C) lo), map_map. apply map_ext. intros t'. reflexivity.
+Qed.
+
+(** the rows of the derived factors outside the crossing are determined by the drawn rows *)
+Lemma the_key_rows g : In g (fl_act fb) -> cand_row fb the_key g = nth g s [].
+Proof.
+  intros Hg. destruct (K_or_ucd fb HF Hq g Hg) as [HK | Hu].
+  - rewrite (cand_row_K fb HF Hq); [apply the_key_rows_K; exact HK | apply (K_not_ucd fb HF Hq); exact HK].
+  - unfold cand_row. rewrite (proj2 (memb_In g (f0_ucdl fb)) Hu).
+    pose proof Hu as Hu'. apply (ucdl_In fb HF Hq) in Hu'. destruct Hu' as (_ & Hnc & Hdf).
+    pose proof (act_lt fb HF g Hg) as Hgn. destruct (f0_sem_factor_some fb HF g Hgn) as [fd Hfd].
+    destruct (f0_sem_ucd fb HF g fd Hg Hnc Hdf Hfd) as (d & w & Hd & Hw & Hnl & Hsu & Hder & Hdeps & Hex).
+    set (dw := {| w_deps := win_deps w; w_width := 1; w_stride := 1; w_start := 0; w_table := map lv_accepts (ff_levels d) |}) in *.
+    assert (HdepsK : forall x, In x (win_deps w) -> In x K).
+    { intros x Hx. apply (K_In fb HF Hq). destruct (Hdeps x Hx) as [H1 [H2 | H2]]; auto. }
+    destruct v_parts as (_ & Hfac & _ & _).
+    rewrite (factor_ok_unique S0 g fd dw Hder eq_refl eq_refl eq_refl Hsu s).
+    + rewrite (f0_sem_trials fb HF). apply map_ext_in. intros t Ht. apply in_seq in Ht.
+      unfold ucd_pick, pick, window_of. rewrite Hd, Hw, Hnl. rewrite (window_args_within fd dw eq_refl Hsu s t). cbn [w_deps dw].
+      unfold all_levels. apply find_ext_in'. intros l _. unfold dw. rewrite (sem_accepts_predicate fb HF g d _ _ _ _ l _ Hd). f_equal.
+      apply map_ext_in. intros x Hx. rewrite (the_key_rows_K x (HdepsK x Hx)). reflexivity.
+    + intros t l1 l2 Ht Hl1 Hl2 A1 A2. rewrite (f0_sem_trials fb HF) in Ht.
+      destruct (f0_table_exact fb HF g fd d w s t Hd Hnl Hsu Hex) as (l0 & _ & _ & Hun).
+      { intros x Hx. destruct (lvl_cell x t (proj1 (Hdeps x Hx)) Ht) as [Hc Hl]. eexists. split; [exact Hc | exact Hl]. }
+      fold dw in Hun. rewrite (Hun l1 Hl1 A1), (Hun l2 Hl2 A2). reflexivity.
+    + apply Hfac. exact Hfd.
 Qed.
 
 End F0C.
